@@ -431,17 +431,17 @@ pub fn gadgets() -> Vec<Gadget> {
     }, |i| Some(Out::Bits(vec![e1(i) == El::IDENTITY, true, true, true, true])));
     // --- an ElementVar that lazily holds a *constant* encoding, forced by each operator in turn (an invalid constant
     //     has no constraint that could fail: the operation itself has to refuse)
-    g!(v, "G + (constant lazy encoding)", "F", true, |cs, i| Ok(OutVar::E(raw(cs, &El::GENERATOR)? + lazy_c(cs, &f1(i))?)), |i| dec(&f1(i).to_bytes_le()).ok().map(|e| Out::E(El::GENERATOR + e)));
-    g!(v, "(constant lazy encoding) + G", "F", true, |cs, i| Ok(OutVar::E(lazy_c(cs, &f1(i))? + raw(cs, &El::GENERATOR)?)), |i| dec(&f1(i).to_bytes_le()).ok().map(|e| Out::E(e + El::GENERATOR)));
-    g!(v, "G - &(constant lazy encoding)", "F", true, |cs, i| { let c = lazy_c(cs, &f1(i))?; Ok(OutVar::E(raw(cs, &El::GENERATOR)? - &c)) }, |i| dec(&f1(i).to_bytes_le()).ok().map(|e| Out::E(El::GENERATOR - e)));
-    g!(v, "G += (constant lazy encoding)", "F", true, |cs, i| { let mut g0 = raw(cs, &El::GENERATOR)?; g0 += lazy_c(cs, &f1(i))?; Ok(OutVar::E(g0)) }, |i| dec(&f1(i).to_bytes_le()).ok().map(|e| Out::E(El::GENERATOR + e)));
-    g!(v, "G -= (constant lazy encoding)", "F", true, |cs, i| { let mut g0 = raw(cs, &El::GENERATOR)?; g0 -= lazy_c(cs, &f1(i))?; Ok(OutVar::E(g0)) }, |i| dec(&f1(i).to_bytes_le()).ok().map(|e| Out::E(El::GENERATOR - e)));
-    g!(v, "(constant lazy encoding) + Element", "F", true, |cs, i| Ok(OutVar::E(lazy_c(cs, &f1(i))? + El::GENERATOR)), |i| dec(&f1(i).to_bytes_le()).ok().map(|e| Out::E(e + El::GENERATOR)));
-    g!(v, "(constant lazy encoding).negate()", "F", true, |cs, i| Ok(OutVar::E(lazy_c(cs, &f1(i))?.negate()?)), |i| dec(&f1(i).to_bytes_le()).ok().map(|e| Out::E(-e)));
-    g!(v, "(constant lazy encoding).double()", "F", true, |cs, i| Ok(OutVar::E(lazy_c(cs, &f1(i))?.double()?)), |i| dec(&f1(i).to_bytes_le()).ok().map(|e| Out::E(e + e)));
-    g!(v, "(constant lazy encoding) is_eq G", "F", true, |cs, i| Ok(OutVar::B(lazy_c(cs, &f1(i))?.is_eq(&raw(cs, &El::GENERATOR)?)?)), |i| dec(&f1(i).to_bytes_le()).ok().map(|e| Out::B(e == El::GENERATOR)));
-    g!(v, "conditionally_select(w, G, (constant lazy encoding))", "F", true, |cs, i| { let gd = wb(cs, false)?; Ok(OutVar::E(ElementVar::conditionally_select(&gd, &raw(cs, &El::GENERATOR)?, &lazy_c(cs, &f1(i))?)?)) }, |i| dec(&f1(i).to_bytes_le()).ok().map(Out::E));
-    g!(v, "(constant lazy encoding).scalar_mul_le(5)", "F", true, |cs, i| { let bits = [wb(cs, true)?, wb(cs, false)?, wb(cs, true)?]; Ok(OutVar::E(lazy_c(cs, &f1(i))?.scalar_mul_le(bits.iter())?)) }, |i| dec(&f1(i).to_bytes_le()).ok().map(|e| Out::E(e * Fr::from(5u64))));
+    g!(v, "G + (constant lazy encoding)", "F", false, |cs, i| Ok(OutVar::E(raw(cs, &El::GENERATOR)? + lazy_c(cs, &f1(i))?)), |i| dec(&f1(i).to_bytes_le()).ok().map(|e| Out::E(El::GENERATOR + e)));
+    g!(v, "(constant lazy encoding) + G", "F", false, |cs, i| Ok(OutVar::E(lazy_c(cs, &f1(i))? + raw(cs, &El::GENERATOR)?)), |i| dec(&f1(i).to_bytes_le()).ok().map(|e| Out::E(e + El::GENERATOR)));
+    g!(v, "G - &(constant lazy encoding)", "F", false, |cs, i| { let c = lazy_c(cs, &f1(i))?; Ok(OutVar::E(raw(cs, &El::GENERATOR)? - &c)) }, |i| dec(&f1(i).to_bytes_le()).ok().map(|e| Out::E(El::GENERATOR - e)));
+    g!(v, "G += (constant lazy encoding)", "F", false, |cs, i| { let mut g0 = raw(cs, &El::GENERATOR)?; g0 += lazy_c(cs, &f1(i))?; Ok(OutVar::E(g0)) }, |i| dec(&f1(i).to_bytes_le()).ok().map(|e| Out::E(El::GENERATOR + e)));
+    g!(v, "G -= (constant lazy encoding)", "F", false, |cs, i| { let mut g0 = raw(cs, &El::GENERATOR)?; g0 -= lazy_c(cs, &f1(i))?; Ok(OutVar::E(g0)) }, |i| dec(&f1(i).to_bytes_le()).ok().map(|e| Out::E(El::GENERATOR - e)));
+    g!(v, "(constant lazy encoding) + Element", "F", false, |cs, i| Ok(OutVar::E(lazy_c(cs, &f1(i))? + El::GENERATOR)), |i| dec(&f1(i).to_bytes_le()).ok().map(|e| Out::E(e + El::GENERATOR)));
+    g!(v, "(constant lazy encoding).negate()", "F", false, |cs, i| Ok(OutVar::E(lazy_c(cs, &f1(i))?.negate()?)), |i| dec(&f1(i).to_bytes_le()).ok().map(|e| Out::E(-e)));
+    g!(v, "(constant lazy encoding).double()", "F", false, |cs, i| Ok(OutVar::E(lazy_c(cs, &f1(i))?.double()?)), |i| dec(&f1(i).to_bytes_le()).ok().map(|e| Out::E(e + e)));
+    g!(v, "(constant lazy encoding) is_eq G", "F", false, |cs, i| Ok(OutVar::B(lazy_c(cs, &f1(i))?.is_eq(&raw(cs, &El::GENERATOR)?)?)), |i| dec(&f1(i).to_bytes_le()).ok().map(|e| Out::B(e == El::GENERATOR)));
+    g!(v, "conditionally_select(w, G, (constant lazy encoding))", "F", false, |cs, i| { let gd = wb(cs, false)?; Ok(OutVar::E(ElementVar::conditionally_select(&gd, &raw(cs, &El::GENERATOR)?, &lazy_c(cs, &f1(i))?)?)) }, |i| dec(&f1(i).to_bytes_le()).ok().map(Out::E));
+    g!(v, "(constant lazy encoding).scalar_mul_le(5)", "F", false, |cs, i| { let bits = [wb(cs, true)?, wb(cs, false)?, wb(cs, true)?]; Ok(OutVar::E(lazy_c(cs, &f1(i))?.scalar_mul_le(bits.iter())?)) }, |i| dec(&f1(i).to_bytes_le()).ok().map(|e| Out::E(e * Fr::from(5u64))));
     // --- equality family
     g!(v, "is_eq", "EE", false, |cs, i| Ok(OutVar::B(raw(cs, &e1(i))?.is_eq(&raw(cs, &e2(i))?)?)), |i| Some(Out::B(e1(i) == e2(i))));
     g!(v, "is_neq", "EE", false, |cs, i| Ok(OutVar::B(raw(cs, &e1(i))?.is_neq(&raw(cs, &e2(i))?)?)), |i| Some(Out::B(e1(i) != e2(i))));
